@@ -229,6 +229,9 @@ def _gen_wrapper(rng, faulty):
     if kind in ("muscle3", "muscle5") and faulty and rng.random() < 0.12:
         w["version"] = rng.choice([
             {"kind": "wrong", "banner": "muscle 5.1.linux64 []\n" if kind == "muscle3" else "MUSCLE v3.8.31 by Robert C. Edgar\n"},
+            # the neighbouring major versions: MUSCLE 4 (neither 3 nor >= 5) and MUSCLE 2
+            {"kind": "wrong", "banner": "MUSCLE v4.0 by Robert C. Edgar\n" if kind == "muscle3" else "muscle 4.0.linux64 []\n"},
+            {"kind": "wrong", "banner": "MUSCLE v2.9 by Robert C. Edgar\n" if kind == "muscle3" else "muscle 4.9.linux64 []\n"},
             {"kind": "garbage", "banner": rng.choice(["", "command not found\n", "version five\n"])},
             {"kind": "enoent", "banner": ""}])
     return w
